@@ -1,2 +1,7 @@
 from ._meta import M
 META = M["C07"]
+
+
+def lemmas(E, REG):
+    from . import _subs_lemma
+    return _subs_lemma.lemmas(E, "C07")
